@@ -24,12 +24,14 @@ type floodBurst struct {
 type floodCase struct {
 	ID     int          `json:"id"`
 	Cap    int          `json:"cap"`
+	Hist   int          `json:"hist"` // PINGs exchanged (answer read) before the client stops reading
 	Bursts []floodBurst `json:"bursts"`
 }
 type floodSample struct {
 	K      string `json:"k"`
 	N      int    `json:"n"`
-	Queued int    `json:"queued"` // -1: connection already closed
+	Queued int    `json:"queued"` // serverConn.queuedControlFrames; -1: connection already closed
+	Real   int    `json:"real"`   // control frames really pending in the write scheduler
 	Closed bool   `json:"closed"`
 }
 type floodObs struct {
@@ -41,7 +43,7 @@ type floodObs struct {
 	Panic    string        `json:"panic"`
 }
 
-func (cr *caseRun) floodSettle() (queued int, closed, ok bool) {
+func (cr *caseRun) floodSettle() (queued, real int, closed, ok bool) {
 	deadline := time.Now().Add(settleTimeout)
 	okCount := 0
 	for i := 0; ; i++ {
@@ -50,17 +52,17 @@ func (cr *caseRun) floodSettle() (queued int, closed, ok bool) {
 			okCount++
 			if okCount >= 2 {
 				if cr.serverDone() {
-					return -1, true, true
+					return -1, -1, true, true
 				}
 				if have {
-					return snap.QueuedCtl, false, true
+					return snap.QueuedCtl, snap.ZeroQ, false, true
 				}
 			}
 		} else {
 			okCount = 0
 		}
 		if time.Now().After(deadline) {
-			return 0, cr.serverDone(), false
+			return 0, 0, cr.serverDone(), false
 		}
 		if i < 50 {
 			time.Sleep(20 * time.Microsecond)
@@ -87,6 +89,14 @@ func runFlood(fc *floodCase) floodObs {
 		o.Hang = true
 		return o
 	}
+	// the connection's past: ordinary PING exchanges, each answered and the answer read
+	for i := 0; i < fc.Hist; i++ {
+		cr.step(Step{A: "c", K: "PING", IWS: -1, MFS: -1, CL: -1})
+		if cr.hang {
+			o.Hang = true
+			return o
+		}
+	}
 	before := len(cr.evs)
 	cr.stall = true
 	var ping [8]byte
@@ -109,16 +119,16 @@ func runFlood(fc *floodCase) floodObs {
 				break // connection closed by the server
 			}
 		}
-		q, closed, ok := cr.floodSettle()
+		q, real, closed, ok := cr.floodSettle()
 		if !ok {
 			o.Hang = true
 			return o
 		}
-		o.Samples = append(o.Samples, floodSample{K: b.K, N: b.N, Queued: q, Closed: closed})
+		o.Samples = append(o.Samples, floodSample{K: b.K, N: b.N, Queued: q, Real: real, Closed: closed})
 	}
 	// resume reading
 	cr.stall = false
-	if _, _, ok := cr.floodSettle(); !ok {
+	if _, _, _, ok := cr.floodSettle(); !ok {
 		o.Hang = true
 		return o
 	}
